@@ -759,5 +759,198 @@ theorem overlay_inj_scalar (initial : List (String × Json)) (ax : List (String 
       exact List.mem_reverse.mp ((lookup_eq_some_iff_mem _ (hnd e' hr') k v).mp hl)
   exact choice_inj ax c c' hk ho h h' (fun k v => ⟨key c c' h h' he k v, key c' c h' h he.symm k v⟩)
 
+/-! ### when do two combinations give different queries?  (objects, mixtures, any axes) -/
+
+/-- the keys an axis can write: its own name for an option that is not an object, the option's keys
+for an object option -/
+def axisKeys (a : String × List Json) : List String :=
+  a.2.flatMap (fun o => (writesOf a.1 o).map (·.1))
+
+/-- what choosing option `o` on the axis `key` makes observable on top of the map `initial`:
+the last write of the option to `k`, else what `initial` holds -/
+def observe (initial : List (String × Json)) (key : String) (o : Json) (k : String) : Option Json :=
+  match lookup (writesOf key o).reverse k with
+  | some v => some v
+  | none => lookup initial k
+
+/-- different axes never write the same key -/
+def AxesDisjoint (ax : List (String × List Json)) : Prop :=
+  ax.Pairwise (fun a b => ∀ k, k ∈ axisKeys a → k ∉ axisKeys b)
+
+/-- two options of the axis that are observably the same (on top of `initial`) are the same option -/
+def OptionsObservablyDistinct (initial : List (String × Json)) (a : String × List Json) : Prop :=
+  ∀ (j j' : Nat) (hj : j < a.2.length) (hj' : j' < a.2.length),
+    (∀ k, observe initial a.1 a.2[j] k = observe initial a.1 a.2[j'] k) → j = j'
+
+theorem mem_axisKeys_of_write (a : String) (o : List Json) (v : Json) (hv : v ∈ o) (k : String)
+    (hk : k ∈ (writesOf a v).map (·.1)) : k ∈ axisKeys (a, o) :=
+  List.mem_flatMap.mpr ⟨v, hv, hk⟩
+
+theorem keys_writes_choice_subset : ∀ (ax : List (String × List Json)) (c : List Nat) (k : String),
+    k ∈ (writes (choice ax c)).map (·.1) → ∃ a ∈ ax, k ∈ axisKeys a
+  | [], _, _, h => by simp [choice, writes] at h
+  | (a, o) :: ax, [], _, h => by simp [writes] at h
+  | (a, o) :: ax, i :: c, k, h => by
+    simp only [choice] at h
+    cases hi : o[i]? with
+    | none =>
+      rw [hi] at h
+      obtain ⟨b, hb, hkb⟩ := keys_writes_choice_subset ax c k h
+      exact ⟨b, by simp [hb], hkb⟩
+    | some v =>
+      rw [hi] at h
+      simp only [writes, List.map_append, List.mem_append] at h
+      rcases h with h | h
+      · exact ⟨(a, o), by simp, mem_axisKeys_of_write a o v (List.mem_of_getElem? hi) k h⟩
+      · obtain ⟨b, hb, hkb⟩ := keys_writes_choice_subset ax c k h
+        exact ⟨b, by simp [hb], hkb⟩
+
+theorem lookup_reverse_eq_none (l : List (String × Json)) (k : String) (h : k ∉ l.map (·.1)) :
+    lookup l.reverse k = none := by
+  rw [lookup_eq_none_iff]; simpa using h
+
+/-- a key of the first axis is decided by the first axis' option alone … -/
+theorem lookup_writes_head (a : String) (o : List Json) (rest : List (String × List Json))
+    (d : Nat) (hd : d < o.length) (cs : List Nat)
+    (hdis : ∀ b ∈ rest, ∀ k, k ∈ axisKeys (a, o) → k ∉ axisKeys b) (k : String)
+    (hk : k ∈ axisKeys (a, o)) :
+    lookup (writes (choice ((a, o) :: rest) (d :: cs))).reverse k
+      = lookup (writesOf a o[d]).reverse k := by
+  have hrest : k ∉ (writes (choice rest cs)).map (·.1) := by
+    intro hm
+    obtain ⟨b, hb, hkb⟩ := keys_writes_choice_subset rest cs k hm
+    exact hdis b hb k hk hkb
+  simp only [choice, List.getElem?_eq_getElem hd, writes, List.reverse_append, lookup_append,
+    lookup_reverse_eq_none _ k hrest]
+
+/-- … and a key the first axis cannot write is decided by the other axes -/
+theorem lookup_writes_tail (a : String) (o : List Json) (rest : List (String × List Json))
+    (d : Nat) (hd : d < o.length) (cs : List Nat) (k : String) (hk : k ∉ axisKeys (a, o)) :
+    lookup (writes (choice ((a, o) :: rest) (d :: cs))).reverse k
+      = lookup (writes (choice rest cs)).reverse k := by
+  have hw : k ∉ (writesOf a o[d]).map (·.1) :=
+    fun hm => hk (mem_axisKeys_of_write a o o[d] (List.getElem_mem hd) k hm)
+  simp only [choice, List.getElem?_eq_getElem hd, writes, List.reverse_append, lookup_append,
+    lookup_reverse_eq_none _ k hw]
+  cases lookup (writes (choice rest cs)).reverse k <;> rfl
+
+/-- **the combination can be read back from the generated query** (as a map), when different axes
+write different keys and the options of each axis are observably different -/
+theorem choice_inj_of_observable (initial : List (String × Json)) :
+    ∀ (ax : List (String × List Json)) (c c' : List Nat), AxesDisjoint ax →
+    (∀ a ∈ ax, OptionsObservablyDistinct initial a) →
+    inRange (ax.map (·.2.length)) c = true → inRange (ax.map (·.2.length)) c' = true →
+    (∀ k, lookup (overlay initial (choice ax c)) k = lookup (overlay initial (choice ax c')) k) →
+    c = c'
+  | [], c, c', _, _, h, h', _ => by simp at h h'; simp [h, h']
+  | (a, o) :: rest, c, c', hdis, hobs, h, h', heq => by
+    obtain ⟨d, ps, rfl, hd, hps⟩ := (MultiSet.inRange_cons_iff _ _ c).mp h
+    obtain ⟨d', ps', rfl, hd', hps'⟩ := (MultiSet.inRange_cons_iff _ _ c').mp h'
+    simp only at hd hd'
+    have hdis' := List.pairwise_cons.mp hdis
+    -- the first digit
+    have hfirst : ∀ k, observe initial a o[d] k = observe initial a o[d'] k := by
+      intro k
+      by_cases hk : k ∈ axisKeys (a, o)
+      · have := heq k
+        rw [lookup_overlay, lookup_overlay, lookup_writes_head a o rest d hd ps hdis'.1 k hk,
+          lookup_writes_head a o rest d' hd' ps' hdis'.1 k hk] at this
+        exact this
+      · have h1 : k ∉ (writesOf a o[d]).map (·.1) :=
+          fun hm => hk (mem_axisKeys_of_write a o o[d] (List.getElem_mem hd) k hm)
+        have h2 : k ∉ (writesOf a o[d']).map (·.1) :=
+          fun hm => hk (mem_axisKeys_of_write a o o[d'] (List.getElem_mem hd') k hm)
+        simp only [observe, lookup_reverse_eq_none _ k h1, lookup_reverse_eq_none _ k h2]
+    have hdd : d = d' := hobs (a, o) (by simp) d d' hd hd' hfirst
+    -- the other digits
+    have htail : ∀ k, lookup (overlay initial (choice rest ps)) k
+        = lookup (overlay initial (choice rest ps')) k := by
+      intro k
+      by_cases hk : k ∈ axisKeys (a, o)
+      · have n1 : k ∉ (writes (choice rest ps)).map (·.1) := by
+          intro hm
+          obtain ⟨b, hb, hkb⟩ := keys_writes_choice_subset rest ps k hm
+          exact hdis'.1 b hb k hk hkb
+        have n2 : k ∉ (writes (choice rest ps')).map (·.1) := by
+          intro hm
+          obtain ⟨b, hb, hkb⟩ := keys_writes_choice_subset rest ps' k hm
+          exact hdis'.1 b hb k hk hkb
+        rw [lookup_overlay, lookup_overlay, lookup_reverse_eq_none _ k n1,
+          lookup_reverse_eq_none _ k n2]
+      · have := heq k
+        rw [lookup_overlay, lookup_overlay, lookup_writes_tail a o rest d hd ps k hk,
+          lookup_writes_tail a o rest d' hd' ps' k hk] at this
+        rw [lookup_overlay, lookup_overlay]
+        exact this
+    rw [hdd, choice_inj_of_observable initial rest ps ps' hdis'.2
+      (fun b hb => hobs b (by simp [hb])) hps hps' htail]
+
+/-- conversely, two options of one axis that are observably the same give the same query (as a map)
+whatever the other axes choose, provided no earlier axis writes a key of theirs: the condition on the
+options is necessary -/
+theorem same_observation_same_query (initial : List (String × Json)) (pre post : List (String × Json))
+    (key : String) (o o' : Json) (hobs : ∀ k, observe initial key o k = observe initial key o' k)
+    (hpre : ∀ k, k ∈ (writesOf key o).map (·.1) ∨ k ∈ (writesOf key o').map (·.1) →
+      k ∉ (writes pre).map (·.1))
+    (k : String) :
+    lookup (overlay initial (pre ++ (key, o) :: post)) k
+      = lookup (overlay initial (pre ++ (key, o') :: post)) k := by
+  have := hobs k
+  simp only [observe] at this
+  simp only [lookup_overlay, writes_append, writes, List.reverse_append, lookup_append]
+  cases lookup (writes post).reverse k with
+  | some v => rfl
+  | none =>
+    simp only
+    by_cases hw : k ∈ (writesOf key o).map (·.1) ∨ k ∈ (writesOf key o').map (·.1)
+    · rw [lookup_reverse_eq_none _ k (hpre k hw)]
+      cases h1 : lookup (writesOf key o).reverse k <;>
+        cases h2 : lookup (writesOf key o').reverse k <;> simp_all
+    · have n1 : k ∉ (writesOf key o).map (·.1) := fun h => hw (Or.inl h)
+      have n2 : k ∉ (writesOf key o').map (·.1) := fun h => hw (Or.inr h)
+      rw [lookup_reverse_eq_none _ k n1, lookup_reverse_eq_none _ k n2]
+
+/-! ### the generated queries are well-formed objects again (keys unique) -/
+
+theorem nodup_keys_insertKv (kvs : List (String × Json)) (k : String) (v : Json)
+    (h : (kvs.map (·.1)).Nodup) : ((insertKv kvs k v).map (·.1)).Nodup := by
+  rw [keys_insertKv]
+  by_cases hk : k ∈ kvs.map (·.1)
+  · simpa [hk] using h
+  · simp only [hk, if_false]
+    exact List.nodup_append.mpr ⟨h, by simp, by
+      intro a ha b hb; simp at hb; subst hb; exact fun e => hk (e ▸ ha)⟩
+
+theorem nodup_keys_mergeKv : ∀ (ws kvs : List (String × Json)), (kvs.map (·.1)).Nodup →
+    ((mergeKv kvs ws).map (·.1)).Nodup
+  | [], _, h => h
+  | (k, v) :: r, kvs, h => nodup_keys_mergeKv r _ (nodup_keys_insertKv kvs k v h)
+
+theorem nodup_keys_swapRemoveKv (kvs : List (String × Json)) (hn : (kvs.map (·.1)).Nodup)
+    (k : String) : ((swapRemoveKv kvs k).map (·.1)).Nodup := by
+  rw [((swapRemoveKv_perm kvs hn k).map _).nodup_iff]
+  exact (List.Sublist.map _ List.filter_sublist).nodup hn
+
+/-! ### the text test, both directions -/
+
+theorem strContains_go_sound (p : List Char) : ∀ (fuel : Nat) (cs : List Char),
+    strContains.go p cs fuel = true → p <:+: cs
+  | 0, _, h => by simp [strContains.go] at h
+  | fuel + 1, cs, h => by
+    unfold strContains.go at h
+    by_cases hp : p.isPrefixOf cs = true
+    · exact (List.isPrefixOf_iff_prefix.mp hp).isInfix
+    · simp only [hp, Bool.false_eq_true, if_false] at h
+      cases cs with
+      | nil => simp at h
+      | cons c r =>
+        simp only at h
+        exact (strContains_go_sound p fuel r h).trans (List.suffix_cons c r).isInfix
+
+/-- `Json.strContains` is the substring test -/
+theorem strContains_iff_infix (s pat : String) :
+    strContains s pat = true ↔ pat.toList <:+: s.toList :=
+  ⟨fun h => strContains_go_sound _ _ _ h, strContains_of_infix s pat⟩
+
 end GridSearch
 end Compass
